@@ -114,7 +114,7 @@ impl Scenario for MatchScenario {
 		if self.hold_once { &["client:send_task:before_handle", "tx:send", "tx:send:returning"] } else { &[] }
 	}
 	fn setup(&self) -> CliState {
-		clim::setup(&CliScenarioCfg { rx_split: self.rx_split_ping_ms.is_some(), ping_ms: self.rx_split_ping_ms, send_ping_ms: None, fail_ping: false, warmup: self.warmup, id_kind: self.id_kind, ops: self.ops.clone(), env: self.env(), fail_send_at: None, tx_points: self.tx_points, buffer_cap: 4, late_after: if self.ops.contains(&FeOp::LateSubscribe) { 1 } else { 0 } })
+		clim::setup(&CliScenarioCfg { fail_close: false, ws_builder: None, rx_split: self.rx_split_ping_ms.is_some(), ping_ms: self.rx_split_ping_ms, send_ping_ms: None, fail_ping: false, warmup: self.warmup, id_kind: self.id_kind, ops: self.ops.clone(), env: self.env(), fail_send_at: None, tx_points: self.tx_points, buffer_cap: 4, late_after: if self.ops.contains(&FeOp::LateSubscribe) { 1 } else { 0 } })
 	}
 	fn judge(&self, st: CliState, _trace: &[String], panics: &[String], status: Status) -> Verdict {
 		let mut v = Vec::new();
